@@ -5,6 +5,7 @@ import (
 	"context"
 	"encoding/json"
 	"fmt"
+	"github.com/ethereum/go-ethereum/rpc"
 	"io"
 	"math/rand"
 	"net/http"
@@ -865,7 +866,7 @@ func c15AgentSession(ev *vlib.Evidence, bin string, session int) {
 				}
 			case 8, 9, 10, 11:
 				// one hostile field at a time, everything else well-formed, so that the field is actually reached
-				hostile := fmt.Sprintf(`[%q,%q,"enode://@","%%zz","enode://a@[::1","http://x/","\u0000","enode://%s@1.2.3.4:99999"]`, pickS(r), pickS(r), strings.Repeat("f", 128))
+				hostile := fmt.Sprintf(`[%q,%q,"","a","enode:/","enode://@","%%zz","enode://a@[::1","http://x/","\u0000","enode://%s@1.2.3.4:99999"]`, pickS(r), pickS(r), strings.Repeat("f", 128))
 				switch {
 				case m.Method == "vipnode_connect":
 					reply = fmt.Sprintf(`{"jsonrpc":"2.0","id":%s,"result":{"pool_version":"evil"}}`, m.ID)
@@ -903,7 +904,30 @@ func c15AgentSession(ev *vlib.Evidence, bin string, session int) {
 	if session%2 == 0 {
 		full = "?fakepeers=3"
 	}
-	agentArgs := []string{"agent", "ws://" + ln.Addr().String() + "/", "--rpc", "fakenode://" + id.NodeID + full, "--nodekey", key, "--update-interval=6s", "--min-peers=3"}
+	rpcArg := "fakenode://" + id.NodeID + full
+	if (session/12)%2 == 1 {
+		// a real JSON-RPC endpoint instead of the built-in fake node: the agent then talks through
+		// the repository's geth wrapper, which has its own handling of ids and URIs
+		f := &fakeChain{kind: "geth", light: session%2 == 0, selfID: id.NodeID}
+		for i := 0; i < 3; i++ {
+			pi := ethnode.PeerInfo{ID: vlib.NewIdentity("c15agentpeer", i).NodeID, Name: "Geth/x", Caps: []string{"eth/63"}}
+			pi.Network.RemoteAddress = fmt.Sprintf("198.51.100.%d:30303", i+1)
+			f.peers = append(f.peers, pi)
+		}
+		nsrv := rpc.NewServer()
+		nsrv.RegisterName("web3", &web3API{f})
+		nsrv.RegisterName("eth", &ethAPI{f})
+		nsrv.RegisterName("net", &netAPI{f})
+		nsrv.RegisterName("admin", &adminAPI{f})
+		if nln, err := netListen(); err == nil {
+			nhs := &http.Server{Handler: nsrv}
+			go nhs.Serve(nln)
+			defer nhs.Close()
+			defer nsrv.Stop()
+			rpcArg = "http://" + nln.Addr().String()
+		}
+	}
+	agentArgs := []string{"agent", "ws://" + ln.Addr().String() + "/", "--rpc", rpcArg, "--nodekey", key, "--update-interval=6s", "--min-peers=3"}
 	if (session/12)%2 == 1 || mode == 9 {
 		agentArgs = append(agentArgs, "--strict-peers")
 	}
@@ -952,13 +976,17 @@ func TestC15(t *testing.T) {
 			go func(st string, s int) { defer wg.Done(); c15PoolSession(ev, bin, st, s, vlib.Scale(600, 3000)) }(st, s)
 		}
 	}
-	for s := 0; s < vlib.Scale(12, 96); s++ {
+	for s := 0; s < vlib.Scale(24, 96); s++ {
 		wg.Add(1)
 		go func(s int) { defer wg.Done(); c15AgentSession(ev, bin, s) }(s)
 	}
 	for s := 0; s < vlib.Scale(6, 60); s++ {
 		wg.Add(1)
 		go func(s int) { defer wg.Done(); c15CutOffWithDepartedHosts(ev, bin, s) }(s)
+	}
+	for s := 0; s < vlib.Scale(6, 60); s++ {
+		wg.Add(1)
+		go func(s int) { defer wg.Done(); c15StatusAfterOddRegistrations(ev, bin, s) }(s)
 	}
 	wg.Wait()
 	if vlib.Thorough() {
